@@ -40,3 +40,47 @@ package gorm
 //@   ensures-on-panic outer: begins == old(begins) + 1 ==> rollbacks == old(rollbacks) + 1 && commits == old(commits)
 //@   ensures-on-panic nested: begins == old(begins) && sps == old(sps) + 1 ==> rbtos == old(rbtos) + 1 && rbname == spname
 //@   ensures-on-panic nested-outer-untouched: begins == old(begins) ==> commits == old(commits) && rollbacks == old(rollbacks)
+
+//@ # ---------- copy-on-derive (C06), chain state (C16), context (C18), connection (C05) ----------
+//@ func (*Statement).clone
+//@   tags C06
+//@   modifies nothing
+//@   loop 1 modifies newStmt.Clauses[*]
+//@   loop 2 modifies newStmt.Preloads[*]
+//@   loop "callback (*sync.Map).Range" modifies newStmt.Settings
+//@   ensures fresh-stmt: fresh(result) && fresh(result.Clauses) && fresh(result.Preloads)
+//@   ensures chain-state: result.Table == stmt.Table && result.TableExpr == stmt.TableExpr && result.Model == stmt.Model && result.Unscoped == stmt.Unscoped && result.Dest == stmt.Dest && result.Distinct == stmt.Distinct && result.Selects == stmt.Selects && result.Omits == stmt.Omits && result.ColumnMapping == stmt.ColumnMapping && result.Schema == stmt.Schema && result.RaiseErrorOnNotFound == stmt.RaiseErrorOnNotFound && result.SkipHooks == stmt.SkipHooks [C16,C06]
+//@   ensures context: result.Context == stmt.Context [C18]
+//@   ensures connpool: result.ConnPool == stmt.ConnPool [C05,C04]
+//@   ensures attrs: result.attrs == stmt.attrs [C16]
+//@   ensures assigns: result.assigns == stmt.assigns [C16]
+//@   ensures joins: len(result.Joins) == len(stmt.Joins) && (len(stmt.Joins) > 0 ==> fresh(result.Joins))
+//@   ensures scopes: len(result.scopes) == len(stmt.scopes) && (len(stmt.scopes) > 0 ==> fresh(result.scopes))
+
+//@ func (*DB).getInstance
+//@   tags C06
+//@   modifies nothing
+//@   ensures reuse: db.clone <= 0 ==> result == db
+//@   ensures fresh-handle: db.clone > 0 ==> fresh(result) && fresh(result.Statement) && fresh(result.Statement.Clauses) && result.Statement.DB == result && result.clone == 0
+//@   ensures connpool: result.Statement.ConnPool == db.Statement.ConnPool [C05,C04]
+//@   ensures context: result.Statement.Context == db.Statement.Context [C18]
+//@   ensures config: result.Config == db.Config && result.Error == db.Error [C19,C05]
+//@   ensures skiphooks: result.Statement.SkipHooks == db.Statement.SkipHooks [C13]
+
+//@ func NewPreparedStmtDB
+//@   tags C06
+//@   modifies nothing
+//@   ensures fresh(result)
+
+//@ func (*DB).Session
+//@   tags C06
+//@   modifies *db.cacheStore
+//@   ensures fresh-handle: fresh(result) && fresh(result.Config) && (!config.Initialized ==> result.clone >= 1)
+//@   ensures context-kept: config.Context == nil ==> result.Statement.Context == db.Statement.Context [C18]
+//@   ensures context-set: config.Context != nil ==> result.Statement.Context == config.Context [C18]
+//@   ensures dryrun: result.Config.DryRun == (db.Config.DryRun || config.DryRun) [C19]
+//@   ensures skip-default-tx: result.Config.SkipDefaultTransaction == (db.Config.SkipDefaultTransaction || config.SkipDefaultTransaction) [C19]
+//@   ensures connpool: !config.PrepareStmt ==> result.Statement.ConnPool == db.Statement.ConnPool [C05,C04]
+//@   ensures tx-stays-tx: config.PrepareStmt && is(db.Statement.ConnPool, Tx) ==> is(result.Statement.ConnPool, *PreparedStmtTX) && result.Statement.ConnPool.(*PreparedStmtTX).Tx == db.Statement.ConnPool [C04,C05]
+//@   ensures error-kept: result.Error == db.Error [C05]
+//@   ensures skiphooks: result.Statement.SkipHooks == (db.Statement.SkipHooks || config.SkipHooks) [C13]
